@@ -105,6 +105,10 @@ def config(cfg):
         kw["innovation_filtering"] = cfg["innovation_filtering"]
     if "max_dt_sec" in cfg:
         kw["max_dt_sec"] = cfg["max_dt_sec"]
+    if "extra_validation" in cfg:
+        kw["extra_validation"] = cfg["extra_validation"]
+    if "python_modules" in cfg:
+        kw["python_modules"] = tuple(cfg["python_modules"])
     return fpy.Config(**kw)
 
 
